@@ -649,11 +649,12 @@ def run(prog, rep, tier):
     for pre_, members in fam_.items():
         def _tzg(i_):
             return next((g_ for g_ in res[i_].get("groups", []) if g_["name"] == "tz"), None)
-        hour_only = [i_ for i_ in members if "%#z" in rows[i_]["fields"]["dtfs"]["fields"]["pattern"] and _tzg(i_) and (_tzg(i_)["max_len"] or 99) <= 5]
+        def _tzv(i_):
+            return rows[i_]["fields"]["dtfs"]["fields"]["tz"].get("variant")
+        hour_only = [i_ for i_ in members if _tzv(i_) == "zp" and _tzg(i_) and (_tzg(i_)["max_len"] or 99) <= 5]
         def _is_full(i_):
-            pat_ = rows[i_]["fields"]["dtfs"]["fields"]["pattern"]
             g_ = _tzg(i_)
-            if not g_ or not ("%:z" in pat_ or ("%z" in pat_ and "%#z" not in pat_)):
+            if not g_ or _tzv(i_) not in ("z", "zc"):
                 return False
             if g_.get("language"):
                 return all(len(z) >= 5 and z[0] in "+-\u2212" for z in g_["language"])
@@ -676,6 +677,60 @@ def run(prog, rep, tier):
                                       p2, rows[p2]["fields"].get("_line_num"), rows[p2]["fields"]["dtfs"]["fields"]["pattern"], eP, t_, rows[t_]["fields"].get("_line_num"), eT, eP, eT))
     if nfam < 20:
         raise CheckerError("R4.10: only %d zone-notation families found (expected >= 20)" % nfam)
+
+    # ------------------------------------------------------------ R4.11 an hour-only zone row cannot swallow the first half of a four-digit offset
+    # `+0530` under an hour-only row (`%#z`, group `[+-]\d\d`) is read as +05:00 when the row's pattern
+    # lets digits follow the captured hour and no sibling reading four digits is tried before it.
+    R411 = rep.rule("R4.11", "where digits may follow an hour-only zone group, a four-digit sibling row is tried first")
+    import re as _re4
+
+    def _py(rx_):
+        for a_, b_ in (("[[:^digit:]]", "[^0-9]"), ("[[:digit:]]", "[0-9]"), ("[[:blank:]]", "[ \t]"), ("[[:^alpha:]]", "[^A-Za-z]"), ("[[:alpha:]]", "[A-Za-z]"),
+                       ("[[:^alnum:]]", "[^A-Za-z0-9]"), ("[[:alnum:]]", "[A-Za-z0-9]"), ("[[:space:]]", "\\s"), ("[[:^space:]]", "\\S"), ("[[:upper:]]", "[A-Z]"), ("[[:lower:]]", "[a-z]")):
+            rx_ = rx_.replace(a_, b_)
+        if "[[:" in rx_ or "[:" in rx_.replace("[:]", ""):
+            return None
+        try:
+            return _re4.compile(rx_)
+        except _re4.error:
+            return None
+    n411 = 0
+    for pre_, members in fam_.items():
+        for t_ in members:
+            if rows[t_]["fields"]["dtfs"]["fields"]["tz"].get("variant") != "zp":
+                continue
+            p_ = rows[t_]["fields"]["regex_pattern"]
+            after_ = p_[len(pre_):]
+            depth_ = 0
+            cut_ = None
+            for ci, ch_ in enumerate(after_):
+                if ch_ == "(" and (ci == 0 or after_[ci - 1] != "\\"):
+                    depth_ += 1
+                elif ch_ == ")" and after_[ci - 1] != "\\":
+                    depth_ -= 1
+                    if depth_ == 0:
+                        cut_ = ci + 1
+                        break
+            if cut_ is None:
+                raise CheckerError("R4.11: cannot isolate the tz group of row %d" % t_)
+            rem_ = after_[cut_:]
+            n411 += 1
+            if rem_ == "":
+                digit_follows = True
+            else:
+                cre = _py(rem_)
+                if cre is None:
+                    raise CheckerError("R4.11: cannot evaluate what may follow the zone group of row %d: %r" % (t_, rem_[:40]))
+                digit_follows = any(cre.match(x_) for x_ in ("30", "30 ", "30 x", "3", "00", "45:", "30]", "30\""))
+            eT = rows[t_]["fields"]["range_regex"]["fields"]["end"]
+            four = [i_ for i_ in members if i_ < t_ and rows[i_]["fields"]["dtfs"]["fields"]["tz"].get("variant") == "z" and _tzg(i_) and (_tzg(i_)["min_len"] or 0) >= 5
+                    and rows[i_]["fields"]["range_regex"]["fields"]["end"] >= eT]
+            rep.examined(R411, "row %d" % t_, sample={"row": t_, "line": rows[t_]["fields"].get("_line_num"), "after_zone_group": rem_[:30], "digit_may_follow": digit_follows, "four_digit_siblings_tried_first": four})
+            if digit_follows and not four:
+                rep.violation(R411, "row|%s|hour-only-swallows-four-digit-offset" % p_[:48], "DATETIME_PARSE_DATAS[%d] (source line %s, %%#z) lets digits follow its two-digit zone group and no sibling row reading `+HHMM` precedes it: "
+                              "`%s+0530` is attributed +05:00, half an hour off" % (t_, rows[t_]["fields"].get("_line_num"), "<14>2023-02-01T15:00:36" if p_.startswith("^<") else "..."))
+    if n411 < 25:
+        raise CheckerError("R4.11: only %d hour-only rows examined (expected >= 25)" % n411)
 
     # ------------------------------------------------------------ R4.8 the --tz-offset value itself (lift of C14 R14.4, R14.8)
     # "A timestamp without zone information is read in the --tz-offset zone": the option's parser is part
